@@ -469,10 +469,10 @@ def j_traces(cx, ntraces, n, depth, setup):
             # evaluated with the same comparator as the G cases, against the texts the trace spec computed
             j = disagree.get(line) or predicted_bad[line]
             reads_back = line not in predicted_bad
-            t2 = j.get("t2", "-") if reads_back else "-"
+            # (p2 / r2: the echo of the re-associated tree under either table - what the echo of the echo would be)
             c = {"i": o["input"], "p": j["p"], "r": j["r"] if j["r"] != j["p"] else "=", "ok": reads_back, "d": j.get("d", []),
                  "ra": j.get("ra", False),
-                 "p2": "=" if t2 == j["p"] else t2, "r2": "=" if t2 == j["r"] else t2}
+                 "p2": "=" if j["p2"] == j["p"] else j["p2"], "r2": "=" if j["r2"] == j["r"] else j["r2"]}
             evaluate(cx, "J/trace%d" % k, setup, c, o)
     rows = paths[0][1]
     deep = max((x for x in rows if x["outcome"] == "ok"), key=lambda x: len(x["input"]))
